@@ -8,7 +8,7 @@
    longer than the key) are assumed.  Passwords, nonces, cipher texts are arbitrary byte lists. *)
 From Coq Require Import List ZArith Bool.
 Import ListNotations.
-From OV Require Import C16.Model C16.Proofs.
+From OV Require Import C16.Model C16.Proofs C16.Utf8.
 Open Scope Z_scope.
 
 (* Encrypting never panics or fails, the cipher text is a whole number of key-size blocks, and
@@ -36,6 +36,19 @@ Proof.
   exists ct. split; [exact E|]. rewrite D. apply expected_same. exact Hu.
 Qed.
 Print Assumptions C16_roundtrip.
+
+(* ... in particular for every string of Unicode scalar values (every Rust &str), encoded as
+   char::encode_utf8 does *)
+Theorem C16_roundtrip_unicode : forall (R : Type) (k : nat) enc dec p (rs : nat -> R) cps nonce,
+  enc_dec_law R k enc dec -> dec_len_law k dec -> (overhead p < k)%nat ->
+  Forall scalar cps -> Z.of_nat (length (flat_map encode_cp cps ++ nonce)) < 2 ^ 32 ->
+  exists ct, password_encrypt R k enc p rs (flat_map encode_cp cps) nonce = Ok ct /\
+    password_decrypt k dec p (Some ct) nonce = Ok (flat_map encode_cp cps).
+Proof.
+  intros R k enc dec p rs cps nonce He Hd Hk Hc Hs.
+  apply C16_roundtrip; try assumption. apply utf8_valid_string. exact Hc.
+Qed.
+Print Assumptions C16_roundtrip_unicode.
 
 (* the token level: the algorithm URI that make_user_name_identity_token writes for a policy
    selects, in decrypt_user_identity_token_password, the padding the password was encrypted with *)
